@@ -378,17 +378,28 @@ theorem list_complete {i : Option Ident} {t : Ty} {r : Fields} (hf1 : CompField 
   simp [parseFieldList, ev1 g (by omega), ev2 g (by omega)]
 
 
+/-- the class of the token after a consumed prefix, read from the expanded rest (`.` is never half of a split) -/
+theorem cur_ne_dot {tl : PState} {rest : List Token} (he : expand tl = rest) (hf : curX rest ≠ .dot) :
+    cur tl ≠ .dot := by
+  intro hc
+  apply hf
+  rw [← he, curX_expand, hc]; rfl
+
 theorem simple_complete (p : Nat) (n : Bytes) : CompT (.simple p n) := by
-  intro ts pre rest hm he _
+  intro ts pre rest hm he hf
   simp only [yieldT] at hm
   obtain ⟨y, r, rfl, hy, hr⟩ := match_cons_inv hm
   have := hr.nil_left; subst this
   obtain ⟨hk, rfl, hn⟩ := hy
   obtain ⟨tl, rfl, he1⟩ := plain_head he (by rw [hk]; decide) (by rw [hk]; decide)
   refine ⟨tl, he1, ?_⟩
+  -- the look-ahead sees the token after the identifier: it is not `.`
+  have hnd : cur tl ≠ .dot := cur_ne_dot he1 hf
+  have hla : lookaheadSimpleType (y :: tl) = true := by
+    rw [lookaheadSimpleType_cons hk]; simp [hn, hnd]
   intro f hf
   obtain ⟨g, rfl⟩ : ∃ g, f = g + 1 := ⟨f - 1, by simp only [needT] at hf; omega⟩
-  simp [parseType, hk, lookaheadSimpleType, hn, parseSimpleType, expect_cons hk]
+  simp [parseType, hk, hla, hn, parseSimpleType, expect_cons hk]
 
 theorem named_complete (a : Ident) (ids : List Ident) (hw : wf (.named (a :: ids)) = true) :
     CompT (.named (a :: ids)) := by
@@ -399,13 +410,26 @@ theorem named_complete (a : Ident) (ids : List Ident) (hw : wf (.named (a :: ids
   obtain ⟨tl, rfl, he1⟩ := plain_head he (by rw [hk]; decide) (by rw [hk]; decide)
   obtain ⟨ts', e', ev⟩ := pathLoop_complete ids tl pd rest hmd he1 hf
   refine ⟨ts', e', ?_⟩
-  have hs : simpleName? y = none := by
-    rw [simpleName?_eq (tk_ident.1 hk)]
-    simpa [wf] using hw
+  have hla : lookaheadSimpleType (y :: tl) = false := by
+    rw [lookaheadSimpleType_cons hk]
+    cases ids with
+    | nil =>
+      -- one component: by `wf` it does not read as a simple type name
+      have hs : simpleName? y = none := by
+        rw [simpleName?_eq (tk_ident.1 hk)]
+        simpa [wf] using hw
+      simp [hs]
+    | cons b ids =>
+      -- two or more components: the next token is the `.`
+      simp only [yieldDots] at hmd
+      obtain ⟨d, r1, rfl, hd, _⟩ := match_cons_inv hmd
+      have hdk : tk d.kind = .dot := hd
+      obtain ⟨tl2, rfl, _⟩ := plain_head he1 (by rw [hdk]; decide) (by rw [hdk]; decide)
+      simp [hdk]
   intro f hf'
   simp only [needT, List.length_cons] at hf'
   obtain ⟨g, rfl⟩ : ∃ g, f = g + 1 := ⟨f - 1, by omega⟩
-  simp [parseType, hk, lookaheadSimpleType, hs, parseNamedType, parseIdentOrPath, parseIdent_cons hk, ev g (by omega)]
+  simp [parseType, hk, hla, parseNamedType, parseIdentOrPath, parseIdent_cons hk, ev g (by omega)]
 
 theorem array_complete {a g : Nat} {item : Ty} (hw : wf item = true) (ih : CompT item) : CompT (.array a g item) := by
   intro ts pre rest hm he _
